@@ -2,7 +2,8 @@
    multi-frame responses, a client that advances its request id across the int32 boundary, several
    connections of one listener *)
 From Coq Require Import List Arith NArith ZArith Lia Bool ZifyN ZifyNat ZifyBool.
-From GoMC Require Import Base.Bytes Base.Dec Gen.Consts Model.C16 Model.C16_ext Proofs.C16 Proofs.C16_proto.
+From GoMC Require Import Base.Bytes Base.Dec Gen.Consts Gen.C16gen Model.C16_syntax Model.C16 Model.C16_ext
+  Proofs.C16 Proofs.C16_proto Proofs.C16_skel.
 Import ListNotations.
 Open Scope N_scope.
 Ltac Zify.zify_post_hook ::= Z.div_mod_to_equations.
@@ -252,4 +253,37 @@ Lemma multi_sessions evs ks i k :
 Proof.
   intros Hk Ha Hid Hc Hev. rewrite (run_multi_proj i evs ks k Hk Ha). rewrite Hc.
   apply session_after_login; assumption.
+Qed.
+
+(* ------------------------------------------------------------------ Accept, translated, feeds the machine above
+   The record the interpretation of the translated (RCONListener).Accept returns (Proofs/C16_skel.v, sem_ctor)
+   is the model's `accepted` connection: ReqID 0, empty wires, around the handle of this very Accept call -
+   for every handle, so every connection of a listener has its OWN record. *)
+Definition accept_conn (h : nat) : option (nat * conn) :=
+  match sem_ctor rcon_Accept h with
+  | Some r => match conn_of_record r with
+              | Some (h', z) => Some (h', {| c2s := []; s2c := []; sid := z |})
+              | None => None
+              end
+  | None => None
+  end.
+Lemma accept_conn_is_model h : accept_conn h = Some (h, accepted).
+Proof. unfold accept_conn. rewrite sem_Accept_is_model. reflexivity. Qed.
+Lemma accept_conn_own_record h1 h2 : h1 <> h2 -> accept_conn h1 <> accept_conn h2.
+Proof. intros H. rewrite !accept_conn_is_model. congruence. Qed.
+
+(* the i-th connection of a listener: the record of the i-th Accept, used by a client with request id id *)
+Definition accepted_mc (p : nat * Z) : mc :=
+  match accept_conn (fst p) with
+  | Some (_, k) => {| m_id := snd p; m_conn := k; m_alive := true |}
+  | None => {| m_id := snd p; m_conn := accepted; m_alive := false |}
+  end.
+Lemma accepted_isolated hids evs i h id : nth_error hids i = Some (h, id) ->
+  proj_obs i (run_multi evs (map accepted_mc hids)) = fst (run_session id (proj i evs) accepted).
+Proof.
+  intros H.
+  rewrite (run_multi_proj i evs (map accepted_mc hids) (accepted_mc (h, id))).
+  - unfold accepted_mc. rewrite accept_conn_is_model. reflexivity.
+  - apply map_nth_error. exact H.
+  - unfold accepted_mc. rewrite accept_conn_is_model. reflexivity.
 Qed.
